@@ -144,7 +144,7 @@ fn num(v: &Val, f: &str) -> Option<u128> {
 
 pub fn run(ctx: &Ctx) -> i32 {
     let mut report = ctx.report("C08", "exploration");
-    report.rule = "scenarios begin(token) -> commit(token, final) (and interleaved pairs of transactions) against the simulated terminal: configured pre-authorisation amount over {0, 1, 10^k-1/10^k/10^k+1, 10^12-1, random}, final amount over {0, pre-1, pre, pre+1, 2^32-1, 2^32, 2^32+1, u64::MAX, u64::MAX-1, 2^63+pre, random}, currency 0..9999, tokens = CP437 text (any byte, no trailing NUL) of 0..200 characters, a third of them built around string literals harvested from the repository's own sources (a token equal to / starting with / ending in a constant of the implementation), first receipt number 1..9999, the terminal's status fields over their full BCD ranges or absent; in a third of the scenarios a card is read before / between the transaction calls, its status information carrying an amount, a receipt number and a maximum pre-authorisation amount (TLV 1F0B) below / at / above the configured amount; in a quarter of the scenarios the link fails once during the reservation (close/garbage/silence/NACK/reply-then-close at a random packet), so that the client re-sends it and the terminal issues a second receipt number. Oracle: the requests the terminal decodes with the reference codec: Reservation{amount=cfg, currency=cfg, reference 1F63=token}; PartialReversal{87=issued receipt, 04=max(pre-final,0) computed in u128, 49=cfg, reference 1F63=token} (payment type and reference prefix are recorded, not judged: the statement does not mention them); ledger balance reserved-released=min(pre,final); summary fields numerically equal to the status information of that commit (a third of the second commits are completed without any: no figures may be handed back then; a fifth of the commits receive two status informations, the earlier one with other figures: the last one counts). Non-trivial = scenario in which the commit reached the terminal; distinct by hash of (config, token, final, receipt, status fields).".into();
+    report.rule = "scenarios begin(token) -> commit(token, final) (and interleaved pairs of transactions) against the simulated terminal: configured pre-authorisation amount over {0, 1, 10^k-1/10^k/10^k+1, 10^12-1, random}, final amount over {0, pre-1, pre, pre+1, 2^32-1, 2^32, 2^32+1, u64::MAX, u64::MAX-1, 2^63+pre, random}, currency 0..9999, tokens = CP437 text (any byte, no trailing NUL) of 0..200 characters, a third of them built around string literals harvested from the repository's own sources (a token equal to / starting with / ending in a constant of the implementation), first receipt number 1..9999, the terminal's status fields over their full BCD ranges or absent; in a third of the scenarios a card is read before / between the transaction calls, its status information carrying an amount, a receipt number and a maximum pre-authorisation amount (TLV 1F0B) below / at / above the configured amount; in a quarter of the scenarios the link fails once during the reservation (close/garbage/silence/NACK/reply-then-close at a random packet), so that the client re-sends it and the terminal issues a second receipt number; scenarios in which the terminal refuses a commit (any abort code, naming no / its own / another open / an unrelated receipt number or FFFF) and the caller goes on with the same and the other token: every later reversal still carries the receipt number issued for its own token. Oracle: the requests the terminal decodes with the reference codec: Reservation{amount=cfg, currency=cfg, reference 1F63=token}; PartialReversal{87=issued receipt, 04=max(pre-final,0) computed in u128, 49=cfg, reference 1F63=token} (payment type and reference prefix are recorded, not judged: the statement does not mention them); ledger balance reserved-released=min(pre,final); summary fields numerically equal to the status information of that commit (a third of the second commits are completed without any: no figures may be handed back then; a fifth of the commits receive two status informations, the earlier one with other figures: the last one counts). Non-trivial = scenario in which the commit reached the terminal; distinct by hash of (config, token, final, receipt, status fields).".into();
     report.exhaustive = Some(false);
     report.assumptions = vec!["string formatting of date/time/terminal id beyond numeric equality is not judged".into(), "64-bit usize (amounts are usize in the configuration)".into()];
     let schema = Arc::new(refcodec::zvt_schema());
@@ -158,9 +158,97 @@ pub fn run(ctx: &Ctx) -> i32 {
         for _ in 0..n / threads {
             one(r, &mut rng, &schema, &dict);
         }
+        for _ in 0..n / threads / 4 {
+            refused_commit(r, &mut rng, &schema, &dict);
+        }
     });
     crate::also_in_release_build(&mut report, "C08", ctx);
     report.finish()
+}
+
+/// A commit the terminal refuses (abort of any code, with or without a receipt number of its own - another open
+/// reservation's, an unrelated one, FFFF, the request's), followed by further calls for the same and the other token:
+/// whatever goes out afterwards still carries, per token, the receipt number and reference of that token's reservation.
+fn refused_commit(r: &mut Report, rng: &mut Rng, schema: &Arc<refcodec::layout::Schema>, dict: &[String]) {
+    let pre = 1000 + rng.below(100_000);
+    let two = rng.chance(1, 2);
+    let cfg = ClientCfg { pre_amount: pre as usize, max_tx: if two { 2 } else { 1 }, ..ClientCfg::default() };
+    let t1 = pick_token_with(rng, dict);
+    let mut t2 = pick_token_with(rng, dict);
+    if t2 == t1 {
+        t2.push('2');
+    }
+    let mut sc = Scenario { cfg: cfg.clone(), ..Scenario::default() };
+    sc.first_receipt = 1 + rng.below(9000);
+    sc.calls.push(Call::Begin(t1.clone()));
+    if two {
+        sc.calls.push(Call::Begin(t2.clone()));
+    }
+    let code = rng.byte();
+    let named = match rng.below(5) {
+        0 => None,
+        1 => Some(None),                        // the request's own number echoed
+        2 => Some(Some(0xffffu64)),
+        3 => Some(Some(sc.first_receipt + 1)), // the other open reservation's (if there is one)
+        _ => Some(Some(1 + rng.below(9999))),
+    };
+    let refusal = match named {
+        None => ExResult::Abort(code),
+        Some(n) => ExResult::AbortWithReceipt(code, n),
+    };
+    let call = sc.calls.len() + 2;
+    sc.plan.push(call, Cmd::PartialReversal, ExPlan { result: refusal, ..ExPlan::default() });
+    sc.calls.push(Call::Commit(t1.clone(), rng.below(pre)));
+    // afterwards: the same token again (commit and / or cancel), the other token
+    let mut later: Vec<Call> = vec![];
+    if rng.chance(2, 3) {
+        later.push(Call::Commit(t1.clone(), rng.below(pre)));
+    }
+    if rng.chance(1, 2) {
+        later.push(Call::Cancel(t1.clone()));
+    }
+    if two {
+        later.push(if rng.chance(1, 2) { Call::Commit(t2.clone(), rng.below(pre)) } else { Call::Cancel(t2.clone()) });
+    }
+    if later.is_empty() {
+        later.push(Call::Commit(t1.clone(), 1));
+    }
+    rng.shuffle(&mut later);
+    sc.calls.extend(later);
+    let tr = run_scenario(&sc, schema);
+    let reached = tr.requests.iter().any(|q| q.cmd == Cmd::PartialReversal);
+    r.case(fnv(format!("refused|{t1}|{t2}|{code}|{named:?}|{}|{:?}", sc.first_receipt, sc.calls.iter().map(|c| c.name()).collect::<Vec<_>>()).as_bytes()), reached);
+    r.count("scenarios_with_a_refused_commit", 1);
+    let case = || case_json(&sc, &tr);
+    for c in &tr.calls {
+        if let CallResult::Panic(p) = &c.result {
+            r.violation(&format!("C08 {}: {}", c.call.as_ref().map(|x| x.name()).unwrap_or("new"), panic_sig(p)), &format!("call {} panicked: {p}", c.index), case());
+            return;
+        }
+    }
+    let issued = |t: &String| tr.ledger.iter().rev().find(|p| &p.token == t).map(|p| p.receipt);
+    for q in tr.requests.iter() {
+        match q.cmd {
+            Cmd::PartialReversal => {
+                let token = reference_of(q).1;
+                let want = token.as_ref().and_then(|t| issued(t));
+                let got = num(&q.val, "receipt_no").map(|x| x as u64);
+                if token.is_none() || got != want {
+                    r.violation("C08 commit: receipt number is not the one issued for the token (after a refused commit)", &format!("call {}: partial reversal for token {token:?} carries receipt {got:?}, the terminal issued {want:?} for it; the refusal named {named:?}", q.call), case());
+                    return;
+                }
+            }
+            Cmd::PreAuthReversal => {
+                let Some(Some(Call::Cancel(t))) = tr.calls.iter().find(|c| c.index == q.call).map(|c| c.call.clone()) else { continue };
+                let got = num(&q.val, "receipt_no").map(|x| x as u64);
+                if got != issued(&t) {
+                    r.violation("C08 cancel: receipt number is not the one issued for the token (after a refused commit)", &format!("call {}: reversal for token {t:?} carries receipt {got:?}, the terminal issued {:?} for it; the refusal named {named:?}", q.call, issued(&t)), case());
+                    return;
+                }
+            }
+            _ => {}
+        }
+    }
 }
 
 fn one(r: &mut Report, rng: &mut Rng, schema: &Arc<refcodec::layout::Schema>, dict: &[String]) {
